@@ -23,6 +23,10 @@ CHECKS = {
             "All 304 registered block types x 14 versions are instantiated with populated fields by answering the reader through the typed read hook; every reference and "
             "string index that is actually serialised (both directions) must be reported by GetChildRefs/GetPtrs/GetStringRefs, and GetChildIndices must agree with GetChildRefs. "
             "Exhaustive over the registered types and versions, sampled over field values.", "3/C05"),
+    "C07": ("exploration", "runtime monitor: independent header/footer walker + hook trace of the writing save + byte counts consumed by the library's reader, over files written after round trips and random API edits",
+            "Every output of every save in the workload is parsed by a reader that shares no code with the library and trusts only the header tables; declared sizes are compared with "
+            "what the writer emitted between Block hook events and with what the reader consumes on reload; string-index fields are located through the StringRef hook. "
+            "The workload writes files after plain round trips, second generation, API construction and random edit sequences in all versions.", "3/C07"),
     "C18": ("exploration", "bounded-exhaustive differential testing against naive reference models under ASan/UBSan/libstdc++ assertions",
             "Every sorted index subset of vectors up to length 7 (10 thorough) for all index types used by callers, all small triangle lists x collapse maps, all strips over a "
             "4-symbol alphabet up to length 7 (8), plus random vectors at the 16-bit limits are pushed through the real templates and compared with naive models; out-of-container "
